@@ -56,8 +56,8 @@ Definition w_readmaybe : loc :=
            x = x + 1        6 *)
 Definition w_loopdepth : loc :=
   LWhile [SAssign 2 vx (EConst 0)] 3 (EBin Lt (EVar vx) (EVar va))
-         (LHere [] [SFor 4 vi (EConst 1) [SPass 5]; SAssign 6 vx (EBin Add (EVar vx) (EConst 1))] [])
-         [].
+         (LHere [] [SFor 4 vi (EConst 1) [SPass 5] []; SAssign 6 vx (EBin Add (EVar vx) (EConst 1))] [])
+         [] [].
 
 (* def f(a):               1
        x = 0                2
@@ -70,7 +70,7 @@ Definition w_loopcarried : loc :=
   LWhile [SAssign 2 vx (EConst 0); SAssign 3 vy (EConst 0)] 4 (EBin Lt (EVar vx) (EVar va))
          (LHere [SPrint 5 (EVar vy)] [SAssign 6 vy (EBin Add (EVar vx) (EConst 5))]
                 [SAssign 7 vx (EBin Add (EVar vx) (EConst 1))])
-         [].
+         [] [].
 
 (* def f(a):               1
        x = 0                2
@@ -83,7 +83,7 @@ Definition w_loopprew : loc :=
   LWhile [SAssign 2 vx (EConst 0)] 3 (EBin Lt (EVar vx) (EVar va))
          (LHere [] [SIf 4 (EBin Lt (EConst 0) (EVar vx)) [SPrint 5 (EVar vy)] []]
                 [SAssign 6 vy (EVar vx); SAssign 7 vx (EBin Add (EVar vx) (EConst 1))])
-         [].
+         [] [].
 
 (* module level:
    x = 1                    1
@@ -123,7 +123,7 @@ Definition w_retunbound : loc :=
 Definition ex_loop : loc :=
   LWhile [SAssign 2 vx (EConst 0); SAssign 3 vy (EConst 0)] 4 (EBin Lt (EVar vx) (EVar va))
          (LHere [] [SAug 5 vy Add (EVar vx); SAug 6 vx Add (EConst 1)] [SPrint 7 (EVar vy)])
-         [SReturn 8 (EVar vy)].
+         [] [SReturn 8 (EVar vy)].
 
 (* a region with a conditional write and a final return:
    def f(a, b):            1
@@ -141,4 +141,22 @@ Definition ex_tail : loc :=
 Definition ex_refused_ret : loc :=
   LHere [] [SIf 2 (EVar va) [SReturn 3 (EVar va)] []; SPrint 4 (EVar va)] [].
 Definition ex_refused_brk : loc :=
-  LWhile [] 2 (EVar va) (LHere [] [SBreak 3] []) [].
+  LWhile [] 2 (EVar va) (LHere [] [SBreak 3] []) [] [].
+
+(* refused: the inner loop together with its else-clause, whose `continue` belongs to the outer loop
+   def f(a):                 1
+       for i in range(a):    2
+           for x in range(i):    3   <- region 3..7
+               if x: break       4,5
+           else:
+               continue          7
+           print(i)              8 *)
+Definition ex_refused_else : loc :=
+  LFor [] 2 vi (EVar va)
+       (LHere [] [SFor 3 vx (EVar vi) [SIf 4 (EVar vx) [SBreak 5] []] [SContinue 7]] [SPrint 8 (EVar vi)])
+       [] [].
+(* accepted: the same inner loop with a harmless else-clause; the break in its body is matched *)
+Definition ex_accepted_else : loc :=
+  LFor [] 2 vi (EVar va)
+       (LHere [] [SFor 3 vx (EVar vi) [SIf 4 (EVar vx) [SBreak 5] []] [SPrint 7 (EVar vi)]] [SPrint 8 (EVar vi)])
+       [] [].
